@@ -442,6 +442,13 @@ class Ctx:
             res.add_tlc(info2)
         return info
 
+    def harness_cmd(self, args):
+        """runs an auxiliary harness command inside the scratch copy of spec/ (e.g. generated constants modules)"""
+        sd = prepare_spec_dir(self.scratch)
+        r = run([self.harness()] + list(args), cwd=sd, stdout=subprocess.PIPE, stderr=subprocess.STDOUT, text=True)
+        if r.returncode != 0:
+            raise MachineryError("harness command %s failed: %s" % (args, r.stdout[-1500:]))
+
     def check(self, res, spec, cfg, timeout_s=None, **kw):
         timeout_s = timeout_s or (600 if self.quick else 3600)
         info = tlc_check(self.scratch, spec, cfg, timeout_s, **kw)
